@@ -19,7 +19,7 @@ def run(ctx):
     queries = [('reach', 22, ['reach:tx1-committed']), ('reach', 26, ['reach:tx1-applied'])] + [('bad', d, [b]) for b in bad]
     # waypoint: the first transaction was rejected (its abort may still be under way), the second is committed behind it; then
     # every continuation of 12 steps: the second change is merged before it is sent, and a committed change altered its target
-    queries += [('bad', 12, ['bad:c02-send-before-merge', 'bad:c02-merge-out-of-order', 'bad:c01-committed-but-target-unaltered', 'bad:c02-applied-ahead-of-committed'], way('F', 'C'))]
+    queries += [('bad', 12, ['bad:c02-send-before-merge', 'bad:c02-merge-out-of-order', 'bad:c01-committed-but-target-unaltered', 'bad:c02-applied-ahead-of-committed'], {'pred': 'reach:w-FC', 'depth': 22, 'seed': {'pred': 'reach:w-F-', 'depth': 24}, 'variants': 1 if quick else 3})]
     proto.run(ctx, 'C02', [('1x2', cfg, queries, ['c02']), ('1x2f', cfgf, qf, [])],
               'transition relation of the real v2 transaction/proposal reconcilers; ordering contracts on one step from any state '
               '+ BMC of the ghost order monitors from the initial state', {'bmc_depth': d})
